@@ -12,7 +12,7 @@ import numpy as np
 from ..core import import_library
 from ..gen import engines as E
 from ..gen import mutate as M
-from ..probe import Probe, Reach
+from ..probe import Probe, Reach, plain_function
 from . import c08
 
 WORKERS = {"quick": 1, "thorough": 16}
@@ -141,7 +141,7 @@ def run(ctx):
         "weight, trailing token). distinct_nontrivial = distinct (site, exception class, text) rejections"
     )
     ctx.assumptions += ["accepted mutants that are ungrammatical but not of a listed class (eg `( )` or `a ( is ) x`) are counted, not judged", "non-numeric weights are literals Python's float() rejects (`1_0` and `nan` are numeric for float())"]
-    funcs = {"Rule.parse": fl.Rule.parse, "Antecedent.load": fl.Antecedent.load, "Consequent.load": fl.Consequent.load, "RuleBlock.load_rules": fl.RuleBlock.load_rules, "FllImporter.engine": fl.FllImporter.engine, "FllImporter.extract_key_value": fl.FllImporter.extract_key_value, "Function.infix_to_postfix": fl.Function.__dict__["infix_to_postfix"].__func__}
+    funcs = {"Rule.parse": fl.Rule.parse, "Antecedent.load": fl.Antecedent.load, "Consequent.load": fl.Consequent.load, "RuleBlock.load_rules": fl.RuleBlock.load_rules, "FllImporter.engine": fl.FllImporter.engine, "FllImporter.extract_key_value": fl.FllImporter.extract_key_value, "Function.infix_to_postfix": plain_function(fl.Function, "infix_to_postfix")}
     with Reach(funcs) as reach, Probe() as probe:
         mon = RejectionMonitor(ctx, fl)
         mon.install(probe)
